@@ -351,7 +351,12 @@ func (w *World) Reconcile(name string) map[string]interface{} {
 	}
 	cs := w.e.snapCache()
 	w.e.api.ResetLogKeepFaults()
-	res, det := w.e.Sync(name)
+	var res, det string
+	if w.queueMode {
+		res, det = w.e.ProcessOne(name)
+	} else {
+		res, det = w.e.Sync(name)
+	}
 	sn["cacheIntact"] = cs.intact()
 	calls := w.PlanView(cached, pre)
 	// fault positions are reported in the canonical call order (see PlanView)
